@@ -47,8 +47,18 @@ def plan(tier, seed):
 	return tasks
 
 
+_LAST = {}
+
+
 def check_item(sh, parent, thr, report, taxa, placement, dists, genomes=None, stats=True):
 	from gambit.query import get_result_item, QueryParams, QueryInput
+	prev = _LAST.get(id(taxa[0]))
+	first = _LAST.get(('first', id(taxa[0])))
+	me = dict(thr=list(thr), report=list(report), placement=list(placement), dists=list(dists))
+	if first is None:
+		_LAST.clear()
+		_LAST[('first', id(taxa[0]))] = me
+	_LAST[id(taxa[0])] = me
 	if genomes is None:
 		genomes = taxo.make_genomes(taxa, placement)
 	darr = np.array(dists, dtype=F32)
@@ -56,6 +66,10 @@ def check_item(sh, parent, thr, report, taxa, placement, dists, genomes=None, st
 	r = item.classifier_result
 	sh.evals += 1
 	case = dict(parent=list(parent), thr=list(thr), report=list(report), placement=list(placement), dists=list(dists))
+	# earlier calls on the SAME taxon objects with other thresholds / flags (state remembered per object would show; needed to replay)
+	hist = [c for c in (first, prev) if c is not None and (c['thr'] != list(thr) or c['report'] != list(report))]
+	if hist:
+		case['earlier_calls_on_the_same_taxon_objects'] = hist[:1] + [c for c in hist[1:] if c != hist[0]]
 	dmin = min(dists)
 	ci = [i for i, g in enumerate(genomes) if g is r.closest_match.genome]
 	if len(ci) != 1 or dists[ci[0]] != dmin or float(r.closest_match.distance) != dmin:
@@ -159,13 +173,15 @@ def t_chains(L, part, nparts):
 	return sh
 
 
-def t_persisted(start, depth):
+def t_persisted(start, depth, only=None):
 	"""Histories over persisted databases that share primary keys / keys / names of their taxa but differ in shape, thresholds and report flags:
 	every sequence (to the depth bound, starting with database `start`) of {open database j and classify all distance vectors; edit thresholds of
 	the currently loaded objects and classify again} in ONE process.  State remembered about a taxon across databases, sessions or edits shows as
 	a disagreement with the model of the database actually being queried."""
 	from mc import fixtures
 	import os
+	import gambit.classify, gambit.query, gambit.db
+	fixtures.reset_gambit_globals()
 	sh = Shard()
 	nw = len(taxo.WORLDS)
 	with fixtures.workdir('c03p') as d:
@@ -176,8 +192,9 @@ def t_persisted(start, depth):
 			paths.append(p)
 		events = [('open', j) for j in range(nw)] + [('edit', 0), ('edit', 1)]
 		dvecs = list(itertools.product(DISTS, repeat=3))
-		for hist in itertools.product(events, repeat=depth - 1):
-			hist = (('open', start),) + hist
+		for hist in ([None] if only else itertools.product(events, repeat=depth - 1)):
+			hist = tuple(tuple(h) for h in only) if only else (('open', start),) + hist
+			fixtures.reset_gambit_globals()       # every history starts from the state of a freshly imported library
 			cur = None
 			sessions = []
 			try:
@@ -278,8 +295,7 @@ def finalize(agg, tier):
 def replay(case, kind=None):
 	sh = Shard()
 	if 'history' in case:
-		vs = t_persisted(case['history'][0][1], len(case['history'])).violations
-		return [v for v in vs if v['case'].get('history') == case['history']][:1] or vs[:1]
+		return t_persisted(case['history'][0][1], len(case['history']), only=case['history']).violations[:1]
 	parent = tuple(case['parent'])
 	taxa = taxo.build_taxa(parent)
 	if kind == 'reportable':
@@ -297,6 +313,9 @@ def replay(case, kind=None):
 		if not (pb is None or (pa is not None and pb in R.lineage(parent, pa))):
 			sh.violation(kind, case)
 	else:
+		for pc in case.get('earlier_calls_on_the_same_taxon_objects') or []:
+			taxo.set_attrs(taxa, thr=pc['thr'], report=pc['report'])
+			check_item(Shard(), parent, tuple(pc['thr']), tuple(pc['report']), taxa, tuple(pc['placement']), tuple(pc['dists']))
 		taxo.set_attrs(taxa, thr=case['thr'], report=case['report'])
 		check_item(sh, parent, tuple(case['thr']), tuple(case['report']), taxa, tuple(case['placement']), tuple(case['dists']))
 	return sh.violations
